@@ -13,7 +13,7 @@
  *   E  = [pre] AR_REP x ( 'a'{AR_ET, AR_LEN} e1..eN ) [post]                       (SE: the specification's values)
  *   X  = [pre'] KX x ( 'a'{AR_ET, AR_LEN} x1..xN ) [post'], KX = AR_REP-1, AR_REP, AR_REP+1 (constant loop), own
  *        symbolic payloads: a third list that can be shorter, longer, equal, smaller or larger
- *   h_ar_eq   eq(C,E) == 1, cmp(C,E) == 0 both ways
+ *   h_ar_eq   eq(C,E) == 1, cmp(C,E) == 0 both ways   (-DAR_ONECALL: only eq(C,E))
  *   h_ar_cmp  against X: sign(cmp(C,X)) == sign(cmp(E,X)) == spec_sign_list of the EXPANSIONS, antisymmetric,
  *             eq <=> sign 0   (-DAR_KX_LO/-DAR_KX_HI restrict KX: obligation split)
  *   h_ar_itr  rtosc_arg_val_itr_get/_next over C yields the expansion -- array header AND the elements behind the
@@ -95,6 +95,11 @@ void h_ar_eq(void)
     build();
     V_COVER(NV > 0);
     V_ASSERT(rtosc_arg_vals_eq(C, E, NC, NE, NULL) == 1,  "C16 'N x [array]' eq its expansion");
+#ifdef AR_ONECALL   /* the smallest obligation of the family: ONE call of the real code. If a read outside an object
+                     * makes element types arbitrary, this one still ends (with the pointer failure inside rtosc's
+                     * code), where the runs with many calls exhaust time or memory. */
+    return;
+#endif
     V_ASSERT(rtosc_arg_vals_eq(E, C, NE, NC, NULL) == 1,  "C16 expansion eq 'N x [array]'");
     V_ASSERT(rtosc_arg_vals_cmp(C, E, NC, NE, NULL) == 0, "C16 cmp('N x [array]', expansion) == 0");
     V_ASSERT(rtosc_arg_vals_cmp(E, C, NE, NC, NULL) == 0, "C16 cmp(expansion, 'N x [array]') == 0");
